@@ -219,7 +219,7 @@ namespace Givaro
     ModularBalanced<int32_t>::init(Element& x, const Integer& y) const
     {
         x = static_cast<Element>(y % _p);
-        NORMALISE_HI(x);
+        NORMALISE(x); // y % _p has the sign of y
         return x;
     }
 
